@@ -10,7 +10,7 @@ checks, na = [], []
 for p in props:
     pid = p["id"]
     r = reg.get(pid)
-    if r and r.get("claimed"):
+    if r and r.get("claimed") and pid in reg.get("_ready", []):
         checks.append({
             "property_id": pid,
             "quick_cmd": f"./check {pid} --tier quick",
